@@ -11,6 +11,7 @@ import (
 	"encoding/json"
 	"fmt"
 	"strings"
+	"time"
 
 	"github.com/gregoryv/mq"
 	"pgregory.net/rapid"
@@ -299,3 +300,64 @@ func padToRemainingLength(m *model.Packet, target int) bool {
 
 var rlTargets = []int{126, 127, 128, 129, 16382, 16383, 16384, 16385}
 var rlTargetsBig = []int{2097151, 2097152, 2097153}
+
+// firstRepoFrame returns "file.go:line" of the first stack frame inside the
+// library, used as root-cause signature of a panic.
+func firstRepoFrame(stack string) string {
+	lines := strings.Split(stack, "\n")
+	for _, l := range lines {
+		l = strings.TrimSpace(l)
+		if strings.HasPrefix(l, "/repo/") {
+			if i := strings.Index(l, " "); i > 0 {
+				l = l[:i]
+			}
+			return strings.TrimPrefix(l, "/repo/")
+		}
+	}
+	return "unknown"
+}
+
+// fuzzSeeds: valid frames of every type plus the hostile constants that
+// exposed defects, as seed corpus for the native fuzz targets.
+func fuzzSeeds() [][]byte {
+	var out [][]byte
+	for typ := uint8(1); typ <= 15; typ++ {
+		m := model.New(typ)
+		switch typ {
+		case model.CONNECT:
+			m.ClientID, m.KeepAlive, m.HasUsername, m.Username = "cid", 10, true, "u"
+			m.Will = &model.Will{Topic: "w", Payload: []byte("x"), QoS: 1, ContentType: "t"}
+			m.UserProps = []model.KV{{K: "k", V: "v"}}
+			m.ReceiveMax = 9
+		case model.CONNACK:
+			m.SessionPresent, m.ReasonString, m.RetainAvailable, m.AssignedClientID = true, "r", true, "id"
+		case model.PUBLISH:
+			m.QoS, m.PacketID, m.TopicName, m.Payload, m.SubIDs = 1, 7, "a/b", []byte("hello"), []uint32{1, 200}
+			m.CorrelationData = []byte("c")
+		case model.PUBACK, model.PUBREC, model.PUBREL, model.PUBCOMP:
+			m.PacketID, m.ReasonCode, m.ReasonString = 3, 0x10, "r"
+		case model.SUBSCRIBE:
+			m.PacketID, m.SubID = 4, 300
+			m.Filters = []model.Filter{{Filter: "a/#", Opts: 1}, {Filter: "b", Opts: 2}}
+		case model.SUBACK, model.UNSUBACK:
+			m.PacketID, m.ReasonCodes = 5, []uint8{0, 1, 0x80}
+		case model.UNSUBSCRIBE:
+			m.PacketID, m.UnsubFilters = 6, []string{"a/#", "b"}
+		case model.DISCONNECT:
+			m.ReasonCode, m.ReasonString = 0x8b, "x"
+		case model.AUTH:
+			m.ReasonCode, m.AuthMethod, m.AuthData = 0x18, "m", []byte{1}
+		}
+		m.Normalize()
+		out = append(out, ref.Canonical(&m))
+	}
+	for _, h := range []string{"400100", "8206000100000561", "a206000100000561", "2003000080", "30ffffffff7f", "00", "e0068b041f000178", "9003000100", "3005000161ff"} {
+		b, _ := hex.DecodeString(h)
+		out = append(out, b)
+	}
+	return out
+}
+
+func nowNanos() int64 { return time.Now().UnixNano() }
+
+func afterSeconds(n int) <-chan time.Time { return time.After(time.Duration(n) * time.Second) }
